@@ -8,6 +8,9 @@ ALLOWED_AXIOMS = {"propext", "Classical.choice", "Quot.sound"}
 LRU = dict(pkg="./cache/disk", test="TestVerifLruCorrespondence", name="lru", diff=True)
 F14 = dict(pkg="./cache/disk", test="TestVerifScenarioTwoReadersCorrupt", name="f14", diff=False)
 
+BLOB = dict(pkg="./cache/disk/casblob", test="TestVerifBlobCorrespondence", name="blob", diff=True, also=["C01", "C14", "C02", "C20"])
+BLOBREAL = dict(pkg="./cache/disk/casblob", test="TestVerifBlobRealCodec", name="blobreal", diff=False)
+
 COMMON_TB = [
     "goroutine scheduling, sync.Mutex and the file system are modelled (atomic lock regions, process-visible file state), not verified",
 ]
@@ -29,6 +32,16 @@ PROPS = {
         lean="BR.Props.C17", runs=[LRU], trusted_base=COMMON_TB, assumptions=[],
         level_text="Theorems on M1's Reserve: refusal iff current + backlog + size exceeds the hard limit, refusal leaves the state unchanged, retry succeeds after the backlog drained, no refusal when the option is off.",
         level_note=NOTE + "the uint64 sum is modelled exactly.", technique=TECH),
+    "C02": dict(
+        lean="BR.Props.C02", runs=[BLOB, BLOBREAL], trusted_base=COMMON_TB + [
+            "zstd codecs (klauspost, libzstd) enter the theorems as a parameter satisfying Codec.Lawful; SHA-256 as an opaque function"],
+        assumptions=["offset >= 0 (enforced by disk.get before the readers are called)"],
+        level_text="Theorems on M2 (casblob): for every conformant file (any chunk size, any frames decoding to the chunks) and every offset below the size, both readers return exactly data[offset:] (raw: the bytes; zstd: a stream decoding to them); the writer's output is conformant; readers are total.",
+        level_note=NOTE + "codec laws are hypotheses (satisfied by a proved toy instance); the real codecs are exercised by the direct oracle only.", technique=TECH),
+    "C20": dict(
+        lean="BR.Props.C20", runs=[BLOB, BLOBREAL], trusted_base=COMMON_TB, assumptions=[],
+        level_text="Header encode/parse round trip and reader conformance theorems on M2; layout constants, file-name shapes and regexps regenerated from the source and compared by Bridge theorems; files from an independent encoder/reader in the harness.",
+        level_note=NOTE + "published layout written once in Lean as the specification.", technique=TECH),
 }
 
 _root = os.path.dirname(os.path.dirname(os.path.abspath(__file__)))
